@@ -189,3 +189,42 @@ def loop_no_early_exit(ctx, body, inside_bb, allow_edges=()):
 def iter_source_calls(e):
     """callee names inside the expression of an iterated element"""
     return {c[1] for c in calls_in(e)}
+
+
+LIMITING_ADAPTERS = ("::take", "::skip", "::filter", "::step_by", "::rev", "::take_while", "::skip_while", "::filter_map", "::nth", "::last", "::split_first", "::split_last", "::first", "::get")
+
+
+def iter_is_whole(e):
+    """the iterated element expression passes through no adapter that could drop elements"""
+    bad = [c[1] for c in calls_in(e) if c[1].startswith("std::iter::Iterator") and c[1].endswith(LIMITING_ADAPTERS) or (c[1].startswith("core::slice::") and c[1].endswith(LIMITING_ADAPTERS))]
+    return not bad, bad
+
+
+def closure_use_sites(ctx, body, callees):
+    """[(bb, closure_name, callee)] blocks of `body` that construct a closure whose body (transitively through nested closures) calls one of callees"""
+    F = ctx.F
+    out = []
+    for bi, blk in enumerate(body.blocks):
+        if blk["cleanup"]:
+            continue
+        for s in blk["stmts"]:
+            if s["k"] == "assign" and s["rv"]["k"] == "agg" and s["rv"]["ak"] == "closure":
+                name = norm(s["rv"]["name"])
+                stack = [name]
+                seen = set()
+                while stack:
+                    n = stack.pop()
+                    if n in seen:
+                        continue
+                    seen.add(n)
+                    cb = F.body(n)
+                    if cb is None:
+                        continue
+                    for _, t in cb.calls():
+                        if callee_of(t) in callees:
+                            out.append((bi, name, callee_of(t)))
+                    for blk2 in cb.blocks:
+                        for s2 in blk2["stmts"]:
+                            if s2["k"] == "assign" and s2["rv"]["k"] == "agg" and s2["rv"]["ak"] == "closure":
+                                stack.append(norm(s2["rv"]["name"]))
+    return out
